@@ -84,7 +84,7 @@ def c19_2(ctx: Ctx):
     ctx.check(all(lin.under(g, "symbol in symbols") for g in st) and len(st) == 2, fi, fi.node, "only directives that name a deleted symbol are touched", "guard changed")
 
 
-@rule("C19.3", ["C19", "C11"], "remaining uses: error unless forced; exactly the expressions that mention a deleted symbol are dropped", 6)
+@rule("C19.3", ["C19", "C11", "C04"], "remaining uses: error unless forced; exactly the expressions that mention a deleted symbol are dropped", 6)
 def c19_3(ctx: Ctx):
     repo = ctx.repo
     fi = repo.func(DS + "_delete_symbolic_expressions")
